@@ -289,6 +289,26 @@ namespace plan
     void finalize();
     std::vector<std::string> units; // RIDDLE text of each compilation unit
     std::vector<int> unit_cut_mode;
+    // an equivalent formulation of the whole problem as one compilation unit: declarations and formulas in their
+    // original order, then the independent top-level constraints in a seeded order, optionally with a tautology
+    std::string variant(uint64_t seed, bool tautology) const
+    {
+      std::string t = m.decl_text.empty() ? std::string() : m.decl_text.back();
+      std::vector<const Stmt *> later;
+      for (auto &s : m.stmts)
+        if (s.k == Stmt::DECL || s.k == Stmt::FORMULA || s.k == Stmt::DISJ)
+          t += s.text + "\n";
+        else if (s.k == Stmt::ASSERT)
+          later.push_back(&s);
+      sim::Rng r = sim::Rng(seed).derive("variant");
+      for (size_t i = later.size(); i > 1; --i)
+        std::swap(later[i - 1], later[r.below(i)]);
+      if (tautology)
+        t += "bool taut_0;\ntaut_0 | !taut_0;\n";
+      for (auto *s : later)
+        t += s->text + "\n";
+      return t;
+    }
   };
 
   inline void Builder::apply(const Op &op)
